@@ -3,5 +3,6 @@ CONSTANTS
   N = 2
   Rad = 1
   Bug = 8
+  OldDistance = FALSE
 CHECK_DEADLOCK FALSE
 INVARIANTS ExtendPointLaw
